@@ -177,7 +177,7 @@ void Ctx::tags(const std::string &t)
     send("B\t" + str(curStep) + "\t" + curOp + "\t" + t);
 }
 
-void Ctx::violate(const std::string &property, const std::string &cls, const std::string &tags, const std::string &detail)
+void Ctx::violate(const std::string &property, const std::string &cls, const std::string &tags, const std::string &detail, bool continuable)
 {
     Violation v;
     v.property = property;
@@ -185,6 +185,12 @@ void Ctx::violate(const std::string &property, const std::string &cls, const std
     v.sig = cls + "@" + curOp + ":" + tags;
     v.detail = detail;
     v.step = curStep;
+    if (continuable && knownSigs != nullptr && knownSigs->count(v.sig) != 0) {
+        ev("KNOWN " + property + " " + v.sig);
+        send("K\t" + property + "\t" + v.sig);
+        count("known_finding_hits_continued");
+        return;
+    }
     violations.push_back(v);
     ev("VIOLATION " + property + " " + v.sig);
     send("V\t" + property + "\t" + cls + "\t" + v.sig + "\t" + str(curStep) + "\t" + oneLine(detail));
@@ -254,9 +260,11 @@ struct RunResult
     std::string lastOp, lastTags;
     std::string err; // captured stderr (tail)
     double wall = 0;
+    std::vector<std::string> knownHits; // known findings the run continued past
 };
 
 bool gTrace = false;
+std::set<std::string> gKnown;
 bool gVerbose = false;
 std::string gCrashProperty = "C09";
 
@@ -329,6 +337,8 @@ std::string classifyStderr(const std::string &err, int status, bool timedOut, st
     return "no-final-record";
 }
 
+std::string crashLocation(const std::string &err, bool mostFrequent);
+
 // Execute one plan in a forked child and collect what it reports.
 RunResult runPlan(const Engine &eng, const Plan &plan)
 {
@@ -349,9 +359,7 @@ RunResult runPlan(const Engine &eng, const Plan &plan)
     if (pid == 0) {
         close(po[0]);
         close(pe[0]);
-        if (!gTrace) {
-            dup2(pe[1], 2);
-        }
+        dup2(pe[1], 2);
         close(pe[1]);
         struct rlimit rl;
         rl.rlim_cur = rl.rlim_max = 0;
@@ -364,6 +372,7 @@ RunResult runPlan(const Engine &eng, const Plan &plan)
         Ctx ctx;
         ctx.fd = po[1];
         ctx.trace = gTrace;
+        ctx.knownSigs = &gKnown;
         eng.execute(plan, ctx);
         ctx.finish();
         _exit(0);
@@ -410,6 +419,9 @@ RunResult runPlan(const Engine &eng, const Plan &plan)
     waitpid(pid, &status, 0);
     r.wall = nowS() - t0;
     r.err = err;
+    if (gTrace) {
+        fputs(err.c_str(), stderr);
+    }
     for (auto &line : split(out, '\n')) {
         if (line.empty()) {
             continue;
@@ -426,6 +438,8 @@ RunResult runPlan(const Engine &eng, const Plan &plan)
             r.v.sig = f[3];
             r.v.step = atoi(f[4].c_str());
             r.v.detail = f[5];
+        } else if (f[0] == "K" && f.size() >= 3) {
+            r.knownHits.push_back(f[1] + "\t" + f[2]);
         } else if (f[0] == "C") {
             for (size_t i = 1; i < f.size(); ++i) {
                 auto eq = f[i].find('=');
@@ -449,7 +463,12 @@ RunResult runPlan(const Engine &eng, const Plan &plan)
         r.hasViolation = true;
         r.v.property = gCrashProperty;
         r.v.cls = cls;
-        r.v.sig = cls + "@" + r.lastOp + ":" + r.lastTags;
+        std::string loc = crashLocation(err, cls == "asan-stack-overflow");
+        std::string tags = r.lastTags;
+        if (!loc.empty()) {
+            tags += (tags.empty() ? "" : ",") + std::string("at-") + loc;
+        }
+        r.v.sig = cls + "@" + r.lastOp + ":" + tags;
         r.v.step = r.lastStep;
         r.v.detail = detail;
         r.fp = "crash-" + hex64(fnv(r.v.sig + "#" + str(r.lastStep)));
@@ -458,6 +477,40 @@ RunResult runPlan(const Engine &eng, const Plan &plan)
         r.fp = "crash-after-violation";
     }
     return r;
+}
+
+// The libcellml function a sanitizer report points at: the first libcellml frame, or for stack
+// exhaustion the most frequent one (the recursing function).
+std::string crashLocation(const std::string &err, bool mostFrequent)
+{
+    std::map<std::string, int> freq;
+    std::string first;
+    size_t pos = 0;
+    while ((pos = err.find(" in libcellml::", pos)) != std::string::npos) {
+        pos += 15;
+        size_t e = pos;
+        while (e < err.size() && (isalnum(static_cast<unsigned char>(err[e])) || err[e] == ':' || err[e] == '_')) {
+            ++e;
+        }
+        std::string fn = err.substr(pos, e - pos);
+        if (first.empty()) {
+            first = fn;
+        }
+        ++freq[fn];
+        pos = e;
+    }
+    if (!mostFrequent) {
+        return first;
+    }
+    std::string best;
+    int bestN = 0;
+    for (auto &kv : freq) {
+        if (kv.second > bestN) {
+            best = kv.first;
+            bestN = kv.second;
+        }
+    }
+    return best;
 }
 
 bool sameViolation(const RunResult &a, const RunResult &b)
@@ -720,7 +773,13 @@ int main(int argc, char **argv)
             return 2;
         }
         gCrashProperty = eng->crashProperty;
+        if (!knownFile.empty()) {
+            gKnown = readLines(knownFile);
+        }
         RunResult r = runPlan(*eng, p);
+        for (auto &kh : r.knownHits) {
+            printf("KNOWNHIT\t%s\n", kh.c_str());
+        }
         printf("RESULT fp=%s events=%ld violation=%d\n", r.fp.c_str(), r.events, r.hasViolation ? 1 : 0);
         if (r.hasViolation) {
             printf("VIOL\t%s\t%s\t%s\t%d\t%s\n", r.v.property.c_str(), r.v.cls.c_str(), r.v.sig.c_str(), r.v.step, r.v.detail.c_str());
@@ -750,6 +809,7 @@ int main(int argc, char **argv)
     if (!knownFile.empty()) {
         known = readLines(knownFile);
     }
+    gKnown = known;
     mkdirs(outDir);
 
     std::map<std::string, long> totals;
@@ -775,6 +835,10 @@ int main(int argc, char **argv)
         if (samples > 0 && !r.hasViolation && r.nontrivial) {
             --samples;
             printf("SAMPLE\t%llu\t%s\n", (unsigned long long)idx, planJson(plan).c_str());
+        }
+        for (auto &kh : r.knownHits) {
+            ++nKnown;
+            printf("KNOWNHIT\t%llu\t%s\n", (unsigned long long)idx, kh.c_str());
         }
         if (!r.hasViolation) {
             continue;
